@@ -633,3 +633,108 @@ def register(ex):  # noqa: F811
     ex.probe("augForcedTrainMode", "List String", '["nn/attention.py:scaled_dot_product_attention_simple:dropout", "zoo/matnet/encoder.py:MixedScoresSDPA.forward:dropout", "zoo/ptrnet/policy.py:PointerNetworkPolicy.forward:train()"]',
              "dropout / batch-norm forced into training behaviour, BatchNorm(track_running_stats=False), .train() calls in those modules",
              forced_train_mode(ex))
+
+
+# ---- round 5: caches in the decoding path ---------------------------------------------------------------------
+
+NAR_DEC = "rl4co/models/common/constructive/nonautoregressive/decoder.py"
+CACHE_FILES = [NAR_DEC, "rl4co/models/common/constructive/autoregressive/decoder.py", "rl4co/models/common/constructive/base.py",
+               "rl4co/models/common/constructive/autoregressive/policy.py", "rl4co/models/common/constructive/nonautoregressive/policy.py",
+               "rl4co/utils/decoding.py", "rl4co/utils/ops.py", "rl4co/models/zoo/am/decoder.py", "rl4co/models/zoo/am/encoder.py"]
+
+
+def _is_lru(dec):
+    f = dec.func if isinstance(dec, ast.Call) else dec
+    nm = f.attr if isinstance(f, ast.Attribute) else (f.id if isinstance(f, ast.Name) else "")
+    return nm in ("lru_cache", "cache")
+
+
+def nar_index_key_has_both(ex):
+    """the cache key of `_multistart_batched_index` contains BOTH batch_size and num_starts as separate components:
+    `@lru_cache` on the function whose parameters include both (true); a hand-written cache whose `key = (...)` tuple has both
+    names as stand-alone elements (true) / lacks one of them, e.g. only their product (false); no cache at all (true)"""
+
+    def run():
+        tree = ex.parse(NAR_DEC)
+        fn = ex.find_function(tree, "_multistart_batched_index") if tree else None
+        if fn is None:
+            return None
+        params = [a.arg for a in fn.args.args]
+        if "batch_size" not in params or "num_starts" not in params:
+            return None
+        if any(_is_lru(d) for d in fn.decorator_list):
+            return "true"
+        keys = [n.value for n in ast.walk(fn) if isinstance(n, ast.Assign) and len(n.targets) == 1
+                and isinstance(n.targets[0], ast.Name) and n.targets[0].id in ("key", "cache_key", "k")]
+        subs = [n for n in ast.walk(fn) if isinstance(n, ast.Subscript) and isinstance(n.value, ast.Name)
+                and n.value.id.isupper()]
+        if not keys and not subs:
+            return "true"  # no cache: a function of its arguments
+        if len(keys) != 1 or not isinstance(keys[0], ast.Tuple):
+            return None
+        alone = {e.id for e in keys[0].elts if isinstance(e, ast.Name)}
+        return _b({"batch_size", "num_starts"} <= alone)
+
+    return run
+
+
+def nar_index_start_major(ex):
+    """the index itself: `batchify(arr, num_starts)` over `arange(batch_size)` (start-major) — true; repeat_interleave — false"""
+
+    def run():
+        tree = ex.parse(NAR_DEC)
+        fn = ex.find_function(tree, "_multistart_batched_index") if tree else None
+        if fn is None:
+            return None
+        calls = [n for n in ast.walk(fn) if isinstance(n, ast.Call)]
+        if any(isinstance(c.func, ast.Attribute) and c.func.attr in ("repeat_interleave", "repeat") for c in calls):
+            return "false"
+        if any(isinstance(c.func, ast.Name) and c.func.id == "batchify" and len(c.args) == 2 and ex.norm(c.args[1]) == "num_starts"
+               for c in calls) and any(ex.norm(c.func).endswith("arange") for c in calls):
+            return "true"
+        return None
+
+    return run
+
+
+def decode_caches(ex):
+    """memoisation in the decoding path: `@lru_cache` / `@cache` functions and module-level `NAME = {}` dicts, as
+    `file:name:kind`"""
+
+    def run():
+        hits, seen = [], False
+        for rel in CACHE_FILES:
+            tree = ex.parse(rel)
+            if tree is None:
+                continue
+            seen = True
+            short = rel.split("rl4co/")[-1]
+            for n in ast.walk(tree):
+                if isinstance(n, (ast.FunctionDef, ast.AsyncFunctionDef)) and any(_is_lru(d) for d in n.decorator_list):
+                    hits.append(f"{short}:{n.name}:lru_cache")
+            for n in tree.body:
+                if isinstance(n, ast.Assign) and len(n.targets) == 1 and isinstance(n.targets[0], ast.Name) \
+                        and ((isinstance(n.value, ast.Dict) and not n.value.keys)
+                             or (isinstance(n.value, ast.Call) and ex.norm(n.value.func) in ("dict", "OrderedDict", "collections.OrderedDict"))):
+                    hits.append(f"{short}:{n.targets[0].id}:module-dict")
+        if not seen:
+            return None
+        return "[" + ", ".join('"' + h + '"' for h in sorted(set(hits))) + "]"
+
+    return run
+
+
+_register_round2 = register
+
+
+def register(ex):  # noqa: F811
+    _register_round2(ex)
+    ex.probe("augNarIndexKeyHasBoth", "Bool", "true",
+             "nonautoregressive/decoder.py:_multistart_batched_index  the memoisation key has batch_size AND num_starts as components",
+             nar_index_key_has_both(ex))
+    ex.probe("augNarIndexStartMajor", "Bool", "true",
+             "nonautoregressive/decoder.py:_multistart_batched_index  index = batchify(arange(batch_size), num_starts) (start-major)",
+             nar_index_start_major(ex))
+    ex.probe("augDecodeCaches", "List String",
+             '["models/common/constructive/nonautoregressive/decoder.py:_multistart_batched_index:lru_cache", "utils/ops.py:get_full_graph_edge_index:lru_cache"]',
+             "memoised functions / module-level dict caches in the decoding path (file:name:kind)", decode_caches(ex))
